@@ -21,6 +21,7 @@ package asm
 
 import (
 	"github.com/llir/ll/ast"
+	"github.com/llir/llvm/internal/enc"
 	"github.com/llir/llvm/ir"
 	"github.com/llir/llvm/ir/types"
 	"github.com/llir/llvm/ir/value"
@@ -36,6 +37,10 @@ type funcGen struct {
 	// locals maps from local identifier (without '%' prefix) to corresponding IR
 	// value.
 	locals map[ir.LocalIdent]value.Value
+	// zeroIDs holds the local variables whose identifier was written as the ID
+	// 0 (`%0 = ...`, `0:`). An explicit ID 0 is indistinguishable from no ID in
+	// ir.LocalIdent, so ir.Func.AssignIDs cannot validate it; see createLocals.
+	zeroIDs []interface{ ID() int64 }
 }
 
 // newFuncGen returns a new generator for the given IR function.
@@ -95,6 +100,13 @@ func (fgen *funcGen) createLocals(oldBlocks []ast.BasicBlock) error {
 	if err := fgen.f.AssignIDs(); err != nil {
 		return errors.WithStack(err)
 	}
+	// Validate explicit local IDs of value 0 (other IDs are validated by
+	// AssignIDs).
+	for _, v := range fgen.zeroIDs {
+		if v.ID() != 0 {
+			return errors.Errorf("invalid local ID in function %q, expected %s, got %s", fgen.f.Ident(), enc.LocalID(v.ID()), enc.LocalID(0))
+		}
+	}
 	// Index local identifiers.
 	return fgen.indexLocals()
 }
@@ -109,6 +121,7 @@ func (fgen *funcGen) newLocals(oldBlocks []ast.BasicBlock) error {
 		block := &ir.Block{}
 		if n, ok := oldBlock.Name(); ok {
 			block.LocalIdent = labelIdent(n)
+			fgen.noteZeroID(block.LocalIdent, block)
 		}
 		if oldInsts := oldBlock.Insts(); len(oldInsts) > 0 {
 			block.Insts = make([]ir.Instruction, len(oldInsts))
@@ -172,6 +185,13 @@ func (fgen *funcGen) indexLocals() error {
 }
 
 // ### [ Helper functions ] ####################################################
+
+// noteZeroID records v if its identifier ident was written as the ID 0.
+func (fgen *funcGen) noteZeroID(ident ir.LocalIdent, v interface{}) {
+	if n, ok := v.(interface{ ID() int64 }); ok && ident.IsUnnamed() && ident.LocalID == 0 {
+		fgen.zeroIDs = append(fgen.zeroIDs, n)
+	}
+}
 
 // addLocal adds the local variable with the given local identifier to the map
 // of local variables of the function.
